@@ -61,7 +61,7 @@ def judge(cfg, repl, kp, kind, val, okind, oval):
 def run(chk, replay=None):
     rng = random.Random(chk.seed)
     th = chk.tier == 'thorough'
-    cases = streams.corpus_lines() + streams.fixture_lines() + streams.crossclass_lines() + streams.deep_lines()[::3] + streams.grammar_lines(rng, 3000 if th else 500, 0.1) + streams.search_lines(rng, None if th else 400)
+    cases = streams.corpus_lines() + streams.fixture_lines() + streams.crossclass_lines() + streams.long_value_lines() + streams.deep_lines()[::3] + streams.grammar_lines(rng, 3000 if th else 500, 0.1) + streams.search_lines(rng, None if th else 400)
     repls = streams.REPLS + ['\\"quoted\\"', 'tab\there', 'a@b']
     cfgs = [Cfg(repl=r, nums=rng.random() < .5, bools=rng.random() < .5) for r in repls]
     # together with --redactNamespaces (the pseudonym function reads the same replacement text): pseudonyms are C12's business and skipped below
